@@ -71,6 +71,29 @@ def trivialPayload (e : Engine) (joinIdentity : Bool) (cols : Cols) : ProcM AnyP
     return .sql { frm := .table name 0 idx, wh := if joinIdentity then [] else [.lit false],
                   avail := if joinIdentity then [] else cols.map (fun t => (t, SqlExpr.col name t)) }
 
+/-- The rows an iteration-engine evaluation returns do not depend on the order in which a database delivered rows:
+no positional slice sits above a transfer out of a SQL engine, and no key-based deduplication of rows that are not
+key-determined does (it keeps the LAST row of each key). -/
+def iterOrderFree (σ : Leaves) : Rel → Bool
+  | .leaf .. => true
+  | .unary op t cols =>
+    iterOrderFree σ t && (match op with
+      | .slice _ _ => !(fromSql t)
+      | .dedup => !(fromSql t) || rowsKeyDetermined cols (sem σ t)
+      | _ => true)
+  | .binary _ l r _ => iterOrderFree σ l && iterOrderFree σ r
+  | .mat _ _ t => iterOrderFree σ t
+  | .transfer _ _ t => iterOrderFree σ t
+  | .select _ _ _ _ _ _ _ _ t => iterOrderFree σ t
+where
+  fromSql : Rel → Bool
+    | .leaf .. => false
+    | .unary _ t _ => fromSql t
+    | .binary _ l r _ => fromSql l || fromSql r
+    | .mat _ _ t => fromSql t
+    | .transfer _ _ t => t.engine.kind == .sql || fromSql t
+    | .select _ _ _ _ _ _ _ _ t => fromSql t
+
 /-- Evaluate a relation in its own engine only (what a hook is allowed to do). -/
 def evalSingle (σ : Leaves) (r : Rel) : ProcM (List Row) := do
   let s ← get
@@ -82,7 +105,8 @@ def evalSingle (σ : Leaves) (r : Rel) : ProcM (List Row) := do
       match it.rows σ with
       | .error e => throw e
       | .ok rows =>
-        set { s with st := { st' with log := [] } }
+        -- rows cut or deduplicated in an order the database chose are not determinate (model-only flag)
+        set { s with st := { st' with log := [] }, det := s.det && iterOrderFree σ r }
         return rows
   | .sql =>
     match conform s.store defaultFuel r with
